@@ -491,8 +491,16 @@ impl Worker {
     }
 
     fn stop(&self) {
-        // Send a `None` poison pill value to stop the run loop.
-        let _ = self.sender.try_send(None);
+        // Send a `None` poison pill value to stop the run loop. If the queue is
+        // full right now the pill must not be lost (the worker would never stop
+        // and never release the wrapped sink): hand it to a short-lived thread
+        // that waits for room instead of blocking the caller.
+        if let Err(TrySendError::Full(pill)) = self.sender.try_send(None) {
+            let sender = self.sender.clone();
+            let _ = thread::Builder::new().spawn(move || {
+                let _ = sender.send(pill);
+            });
+        }
     }
 
     // Stop reading events from the channel and wait for the "stopped" flag
